@@ -20,7 +20,7 @@ EXPLANATION = (
 ASSUMPTIONS = TRUSTED + ["k-NN optimality and ascending order are scikit-learn's KD-tree query semantics"]
 
 NN = "nnana."
-A = {"isinstance(feature_values, list)": False, "reset_index": True, "return_df": False, "isinstance(motl_a, str)": False,
+A = {"isinstance(feature_values, list)": False, "isinstance(feature_values, (list, np.ndarray))": False, "reset_index": True, "return_df": False, "isinstance(motl_a, str)": False,
      "isinstance(motl_nn, str)": False, "len(idx) == 0": False, "tomo_number is None": True, "plot_rotations": False}
 SAM = {}
 for p_ in ("a:", "b:"):
